@@ -137,19 +137,25 @@ func c09Explore(src *choice.Src) *core.Result {
 		}
 		texts = append(texts, string(data))
 		// append with optional failing reader: the append must fail and leave the store unchanged, then succeed on retry
+		var underFault []tlog.Hash // what StoredHashes returned without an error although a read failed
+		underFaultKind := 0
 		if faultEvery > 0 && src.Bool(1, 4*faultEvery) {
 			st.fault, st.fired = src.Range(1, 3), false
 			hs, err := tlog.StoredHashes(i, data, st)
 			if st.fired {
 				res.Faults[[]string{"", "store-read-error", "store-read-short", "store-read-long"}[st.fault]]++
 				if err == nil {
-					res.Fail("C09", "reader-fault-surfaces", "StoredHashes succeeded although its HashReader failed or returned the wrong number of hashes",
-						"appending record %d: store fault %d delivered, StoredHashes returned %d hashes and no error", i, st.fault, len(hs))
+					// allowed only if the result is right all the same (compared with the honest append below)
+					underFault, underFaultKind = append([]tlog.Hash{}, hs...), st.fault
 				}
 			}
 			st.fault = 0
 		}
 		hs, err := tlog.StoredHashes(i, data, st)
+		if underFault != nil && err == nil && !eqTlogHashes(underFault, hs) {
+			res.Fail("C09", "reader-fault-surfaces", "StoredHashes returned wrong hashes, and no error, although its HashReader failed or returned the wrong number of hashes",
+				"appending record %d: store fault %d delivered, StoredHashes returned %d hashes and no error; they differ from what the same append returns on a healthy reader", i, underFaultKind, len(underFault))
+		}
 		if err != nil {
 			res.Fail("C09", "append-succeeds", "StoredHashes failed on an honest store", "record %d: %v", i, err)
 			break
@@ -431,6 +437,8 @@ func (w *c09Inter) step(l *c09Log) {
 		return
 	}
 	data := []byte(fmt.Sprintf("%s/m v1.%d.0 h1:%x\n", l.name, l.n, choice.Mix(uint64(l.n), uint64(len(l.name)))))
+	var underFault []tlog.Hash
+	underFaultKind := 0
 	if w.src.Bool(1, 6) {
 		// a failing read first: must surface, must leave nothing behind that later operations trip over
 		l.st.fault, l.st.fired = w.src.Range(1, 3), false
@@ -441,8 +449,7 @@ func (w *c09Inter) step(l *c09Log) {
 			res.Faults[[]string{"", "store-read-error", "store-read-short", "store-read-long"}[l.st.fault]]++
 			l.fails++
 			if err == nil {
-				res.Fail("C09", "reader-fault-surfaces", "StoredHashes succeeded although its HashReader failed or returned the wrong number of hashes",
-					"log %s record %d: store fault %d delivered, StoredHashes returned %d hashes and no error", l.name, l.n, l.st.fault, len(hs))
+				underFault, underFaultKind = append([]tlog.Hash{}, hs...), l.st.fault
 			}
 		}
 		l.st.fault = 0
@@ -453,6 +460,11 @@ func (w *c09Inter) step(l *c09Log) {
 	l.busy = true
 	hs, err := tlog.StoredHashes(l.n, data, l.st)
 	l.busy = false
+	if underFault != nil && err == nil && !eqTlogHashes(underFault, hs) {
+		res.Fail("C09", "reader-fault-surfaces", "StoredHashes returned wrong hashes, and no error, although its HashReader failed or returned the wrong number of hashes",
+			"log %s record %d: store fault %d delivered, StoredHashes returned %d hashes and no error; they differ from what the same append returns on a healthy reader", l.name, l.n, underFaultKind, len(underFault))
+		return
+	}
 	if res.Violation != nil {
 		return
 	}
@@ -532,6 +544,18 @@ func c09Interleave(src *choice.Src) *core.Result {
 	res.Trivial = total < 2
 	res.Sample = map[string]interface{}{"logs": nl, "appends": total, "operations_nested_in_reads": w.nested, "store_read_faults": res.Faults}
 	return res
+}
+
+func eqTlogHashes(a, b []tlog.Hash) bool {
+	if len(a) != len(b) {
+		return false
+	}
+	for i := range a {
+		if a[i] != b[i] {
+			return false
+		}
+	}
+	return true
 }
 
 func sampleLens(t []string) []int {
